@@ -107,6 +107,40 @@ func genC12(c *Ctx) {
 		})
 		c.Case("pk-of-aggregated-key", "pk.of 0x"+sum.Text(16), ans)
 	}
+	// call histories: the public key of an aggregated private key must not depend on which of the input keys had their
+	// own public key computed (and cached) before the aggregation
+	for n := 2; n <= 4; n++ {
+		for mask := 0; mask < 1<<n; mask++ {
+			ks := make([]*big.Int, n)
+			sum := new(big.Int)
+			for i := range ks {
+				ks[i] = c.randScalar()
+				sum.Add(sum, ks[i])
+			}
+			sum.Mod(sum, blsR)
+			m := mask
+			ans := guard(func() string {
+				sks := make([]crypto.PrivateKey, n)
+				for i := range sks {
+					sks[i] = skFromInt(ks[i])
+					if m>>i&1 == 1 {
+						_ = sks[i].PublicKey() // touch: fills the cache of this input key
+					}
+				}
+				agg, err := crypto.AggregateBLSPrivateKeys(sks)
+				if err != nil {
+					return "err"
+				}
+				pk := agg.PublicKey()
+				sig, _ := agg.Sign([]byte("m"), hsh)
+				if ok, _ := pk.Verify(sig, []byte("m"), hsh); !ok {
+					return "ok " + hx(pk.Encode()) + " own-signature-rejected"
+				}
+				return "ok " + hx(pk.Encode())
+			})
+			c.Case("pk-of-aggregated-key-history", "pk.of 0x"+sum.Text(16), ans)
+		}
+	}
 	// mapToFr on many lengths (observed through the BLS key generation only indirectly): public API has no direct entry
 	// public keys of chosen scalars on the three curves are covered by C05 (pk.of / ecdsa pkof)
 }
